@@ -10,6 +10,8 @@ from .values import Sym
 
 
 def _quant(ex, lo, hi, f, universal):
+    if isinstance(lo, int) and isinstance(hi, int) and hi <= lo:
+        return universal  # empty range (the body need not even be evaluable, e.g. indexing a concrete empty list)
     i = ex.fresh_sym('int', 'q')
     n0 = len(ex.pc)
     ex.quant += 1
@@ -192,6 +194,7 @@ SPEC_FORMS = {
 
 
 _REC_CACHE = {}
+SNOC_LEMMA = False  # opt-in (pyvc/ext_c10.py): also prove / instantiate F(s ++ [x]) == F(s) ++ [m(x)] if c(x)
 
 
 def _free_consts(t, acc, seen):
@@ -237,6 +240,10 @@ def symbolic_comprehension(ex, elt, gens, node):
     saved_scope = ex.scope
     ex.scope = [frame] + list(ex.scope)
     n0 = len(ex.pc)
+    # a comprehension of the *code under proof* (not of a clause / ghost function): requirements of partial
+    # primitives in its body (struct.pack ranges) are collected instead of being silently total
+    saved_reqs = getattr(ex, 'quant_reqs', None)
+    ex.quant_reqs = [] if (ex.spec_mode == 0 and not ex.quant) else saved_reqs
     ex.quant += 1
     ex.spec_mode += 1
     try:
@@ -247,7 +254,20 @@ def symbolic_comprehension(ex, elt, gens, node):
         ex.quant -= 1
         ex.spec_mode -= 1
         ex.scope = saved_scope
+        reqs, ex.quant_reqs = ex.quant_reqs, saved_reqs
     del ex.pc[n0:]
+    if reqs and saved_reqs is None and not ex.quant:
+        # the comprehension raises iff the requirement fails for some element that is evaluated (elements filtered
+        # out by an earlier `if` are not evaluated: the requirement is guarded by the conditions)
+        qi = z3.Int(ex.fresh_name('qi'))
+        guard = z3.And(*[zbool(c) if not isinstance(c, bool) else z3.BoolVal(c) for c in conds]) if conds else z3.BoolVal(True)
+        allreq = z3.And(*[r[0] for r in reqs])
+        body_ok = z3.substitute(z3.Implies(guard, allreq), (e, seq.t[qi]))
+        every = z3.ForAll([qi], z3.Implies(z3.And(qi >= 0, qi < z3.Length(seq.t)), body_ok))
+        if ex.decide([every, z3.Not(every)], 'comprehension element requirement') == 1:
+            from .engine import PyExc
+
+            raise PyExc(ex.new_exception(reqs[0][1], reqs[0][2]))
     cterm = z3.And(*[zbool(c) if not isinstance(c, bool) else z3.BoolVal(c) for c in conds]) if conds else z3.BoolVal(True)
     out_kind = M.guess_kind(ex, ev)
     mterm = M.value_to_elem(ex, ev, out_kind)
@@ -339,6 +359,37 @@ def _lemmas(ent):
         fx = F(x, *phs)
         return z3.Implies(z3.And(j >= 0, j < z3.Length(fx)), z3.substitute(ent['c'], (ent['ph_e'], fx[j])))
 
+    # snoc: F(s ++ [x]) == F(s) ++ ([m(x)] if c(x) else []) for an arbitrary element __x (what `append` needs:
+    # the function is defined on the head, appending is at the end -- induction on s).  The proof obligation is
+    # stated for an *uninterpreted* G in place of F, with the three instances of F's defining equation that the
+    # induction step uses as hypotheses (they hold of F by definition), so that the solvers see pure
+    # EUF + sequences; the sequence facts about head / tail of s ++ [x] are their own obligation (snoc-seq).
+    xs = z3.Const('__x', ent['in_sort'])
+    empty_in = z3.Empty(z3.SeqSort(ent['in_sort']))
+    empty_out = z3.Empty(z3.SeqSort(ent['out_sort']))
+
+    def stmt_snoc(G, x):
+        cx = z3.substitute(ent['c'], (ent['ph_e'], xs))
+        mx = z3.substitute(ent['m'], (ent['ph_e'], xs))
+        return G(z3.Concat(x, z3.Unit(xs)), *phs) == z3.Concat(G(x, *phs), z3.If(cx, z3.Unit(mx), empty_out))
+
+    def unfold(G, x):
+        c_h = z3.substitute(ent['c'], (ent['ph_e'], x[0]))
+        m_h = z3.substitute(ent['m'], (ent['ph_e'], x[0]))
+        return G(x, *phs) == z3.If(z3.Length(x) == 0, empty_out, z3.Concat(z3.If(c_h, z3.Unit(m_h), empty_out), G(z3.Extract(x, 1, z3.Length(x) - 1), *phs)))
+
+    if SNOC_LEMMA:
+        sx = z3.Concat(S, z3.Unit(xs))
+        tsx = z3.Extract(sx, 1, z3.Length(sx) - 1)
+        seq_facts = z3.And(
+            z3.Length(sx) == z3.Length(S) + 1,
+            z3.Implies(z3.Length(S) > 0, z3.And(sx[0] == S[0], tsx == z3.Concat(tail, z3.Unit(xs)))),
+            z3.Implies(z3.Length(S) == 0, z3.And(S == empty_in, sx[0] == xs, tsx == empty_in)),
+        )
+        G = z3.Function(f'comp{ent["idx"]}_u', *[F.domain(k) for k in range(F.arity())], F.range())
+        out.append(('snoc-seq', [], seq_facts))
+        out.append(('snoc', [z3.Implies(z3.Length(S) > 0, stmt_snoc(G, tail)), seq_facts, unfold(G, sx), unfold(G, S), unfold(G, empty_in)], stmt_snoc(G, S)))
+        ent['snoc_stmt'] = lambda x: stmt_snoc(F, x)
     if ent['identity']:
         # the quantified statement is proved for an arbitrary index __i; the induction
         # hypothesis (for the tail) is instantiated at __i and __i - 1
@@ -352,6 +403,17 @@ def _instances(ent, s, actuals, res):
     sub = [(ent['S'], s)] + list(zip(phs, actuals))
     out = []
     for nm, ih, goal in _lemmas(ent):
+        if nm == 'snoc-seq':
+            continue
+        if nm == 'snoc':
+            # instantiated (for F itself) where the argument has the shape init ++ [x] (the result of list.append)
+            st = z3.simplify(s)
+            if z3.is_app(st) and st.decl().kind() == z3.Z3_OP_SEQ_CONCAT and st.num_args() >= 2:
+                last = st.arg(st.num_args() - 1)
+                if z3.is_app(last) and last.decl().kind() == z3.Z3_OP_SEQ_UNIT:
+                    init = st.arg(0) if st.num_args() == 2 else z3.Concat(*[st.arg(i) for i in range(st.num_args() - 1)])
+                    out.append(z3.substitute(ent['snoc_stmt'](ent['S']), (ent['S'], init), (z3.Const('__x', ent['in_sort']), last.arg(0)), *zip(phs, actuals)))
+            continue
         g = z3.substitute(goal, *sub)
         if nm == 'all-satisfy':
             g = z3.ForAll([z3.Int('__i')], g)  # proved for an arbitrary index
